@@ -549,6 +549,25 @@ def _patch_loc():
 _patch_loc()
 
 
+def check_stateless(ctx, repo):
+    """R4 for every call history: split/get_cutoffs/get_n_splits are functions of (constructor parameters, y) only.
+    A store to ``self`` outside ``__init__`` makes what a splitter reports depend on earlier calls."""
+    from .. import astq as _a
+    for cname in ("BaseSplitter", "BaseWindowSplitter", "SlidingWindowSplitter", "ExpandingWindowSplitter",
+                  "CutoffSplitter", "SingleWindowSplitter"):
+        cls = repo.cls(SPLIT + ":" + cname)
+        for mname, fn in sorted(cls.methods.items()):
+            if mname == "__init__":
+                continue
+            stores = _a.self_attr_stores(fn)
+            dyn = [c for c in _a.calls(fn) if _a.call_name(c) == "setattr" and c.args and dotted(c.args[0]) == "self"]
+            key = "%s.%s:stateless" % (cname, mname)
+            ctx.check(not stores and not dyn, "R4", key, "no store to self (result depends on parameters and y only)",
+                      "%s.%s stores self.%s: what the splitter yields/reports now depends on earlier calls" % (
+                          cname, mname, ", self.".join(sorted({a for a, _, _ in stores}) or ["<setattr>"])),
+                      ctx.loc(cls.module, (stores[0][2] if stores else (dyn[0] if dyn else fn))))
+
+
 def run(ctx):
     repo = ctx.repo
     ctx.explain("C01: abstract interpretation (affine domain, scenario folding) of the four splitters' "
@@ -561,8 +580,9 @@ def run(ctx):
     check_cutoff_splitter(ctx, repo)
     check_single(ctx, repo)
     check_tts(ctx, repo)
+    check_stateless(ctx, repo)
     ctx.floor("R1", 20)
     ctx.floor("R2", 6)
     ctx.floor("R3", 20)
-    ctx.floor("R4", 8)
+    ctx.floor("R4", 30)
     ctx.floor("R5", 10)
